@@ -52,6 +52,8 @@ fn main() {
             "C03" => props::c03::replay(&ctx, &v),
             "C05" => props::c05::replay(&ctx, &v),
             "C06" => props::c06::replay(&ctx, &v),
+            "C07" => props::c07::replay(&ctx, &v),
+            "C12" => props::c12::replay(&ctx, &v),
             _ => {
                 eprintln!("unknown property {prop}");
                 std::process::exit(2);
@@ -62,6 +64,8 @@ fn main() {
             "C03" => props::c03::run(&ctx),
             "C05" => props::c05::run(&ctx),
             "C06" => props::c06::run(&ctx),
+            "C07" => props::c07::run(&ctx),
+            "C12" => props::c12::run(&ctx),
             _ => {
                 eprintln!("unknown property {prop}");
                 std::process::exit(2);
@@ -76,7 +80,8 @@ fn dev(args: &[String]) {
     use winter_prover::Trace;
     let src = std::fs::read_to_string(&args[0]).expect("source file");
     let stack: Vec<u64> = args[1..].iter().filter_map(|s| s.parse().ok()).collect();
-    let case = vm::Case { src, stack, ..Default::default() };
+    let kernel = std::env::var("DEV_KERNEL").ok().map(|p| std::fs::read_to_string(p).expect("kernel file"));
+    let case = vm::Case { src, stack, kernel, ..Default::default() };
     let p = match vm::assemble(&case, false) {
         vm::Assembled::Ok(p) => p,
         vm::Assembled::Err(e) => return println!("asm error: {e}"),
@@ -92,6 +97,61 @@ fn dev(args: &[String]) {
             match props::c03::check_trace("DEV", &case, &p, &mut t, &chal, 0) {
                 Ok(n) => println!("AIR ok ({} evaluations)", n),
                 Err(v) => println!("AIR: {} {}", v.sig, v.msg),
+            }
+            if std::env::var("DEV_KERNEL").is_ok() {
+                use vm_core::FieldElement;
+                let chal = common::challenges(&[5, 0, 77], 5);
+                let aux = t.build_aux_segment::<vm_core::Felt>(&[], &chal).unwrap();
+                let last = t.length() - 2;
+                let bus = aux.get(tracekit::AUX_CHIP_BUS, last);
+                let vt = aux.get(tracekit::AUX_SIBLING, last);
+                println!("bus_final {} vt_final {}", bus, vt);
+                for (i, d) in p.kernel().proc_hashes().iter().enumerate() {
+                    let r: [vm_core::Felt; 4] = (*d).into();
+                    for a in 0..3u64 {
+                        let v = chal[0] + chal[1] * vm_core::Felt::new(a) + chal[2] * r[0] + chal[3] * r[1] + chal[4] * r[2] + chal[5] * r[3];
+                        println!("  proc {} addr {} v {} v^-1 {}", i, a, v, v.inv());
+                    }
+                }
+            }
+            if let Ok(colname) = std::env::var("DEV_AUX") {
+                let col: usize = colname.parse().unwrap();
+                let chal = common::challenges(&[5, 0, 77], 5);
+                let aux = t.build_aux_segment::<vm_core::Felt>(&[], &chal).unwrap();
+                let main = t.main_segment();
+                let mut prev = aux.get(col, 0);
+                println!("row 0 aux {}", prev);
+                for r in 1..t.length() - 1 {
+                    let v = aux.get(col, r);
+                    if v != prev {
+                        let g = |c: usize, r: usize| tracekit::col_u64(main, c, r);
+                        println!(
+                            "row {} aux {} (after op {:#09b} at row {}: addr {} addr' {} h1' {} h4..7 {:?} groupcnt {})",
+                            r, v, tracekit::opcode_at(main, r - 1), r - 1, g(tracekit::DEC_ADDR, r - 1), g(tracekit::DEC_ADDR, r), g(tracekit::DEC_H + 1, r),
+                            [g(tracekit::DEC_H + 4, r - 1), g(tracekit::DEC_H + 5, r - 1), g(tracekit::DEC_H + 6, r - 1), g(tracekit::DEC_H + 7, r - 1)], g(tracekit::DEC_GROUP_COUNT, r - 1)
+                        );
+                        if col == 0 {
+                            use vm_core::FieldElement;
+                            let f = |x: u64| vm_core::Felt::new(x);
+                            let ratio = v / prev;
+                            let (a, a2, h1n) = (g(tracekit::DEC_ADDR, r - 1), g(tracekit::DEC_ADDR, r), g(tracekit::DEC_H + 1, r));
+                            let val = |b: u64, p: u64, l: u64| chal[0] + chal[1] * f(b) + chal[2] * f(p) + chal[3] * f(l);
+                            let cands = [
+                                ("add(a',a,0)", val(a2, a, 0)),
+                                ("rem(a,a',0)", val(a, a2, 0).inv()),
+                                ("rem(a,a',1)", val(a, a2, 1).inv()),
+                                ("respan", val(a2, h1n, 0) / val(a, h1n, 0)),
+                            ];
+                            let m: Vec<&str> = cands.iter().filter(|c| c.1 == ratio).map(|c| c.0).collect();
+                            println!("      ratio matches {:?}", m);
+                        }
+                        prev = v;
+                    }
+                }
+            }
+            match props::c12::check_case_a(&case, &p, &mut t, 5, None) {
+                Ok(_) => println!("C12-A ok"),
+                Err(v) => println!("C12-A: {} {}", v.sig, v.msg),
             }
         }
         vm::Ran::Err(e, _) => println!("exec error: {e}"),
